@@ -392,9 +392,15 @@ func c14(w *core.World, r *core.Report) {
 	// ---- VALIDATE-FIRST
 	r.Rule("VALIDATE-FIRST", 4, "every requested path is validated against the schema before anything is read: validatePath is called in a range over req.GetPath(), its error is tested before the next path is looked at (no later result can overwrite it), the failure edge returns a non-nil error, and the call dominates every handler call.")
 	{
-		vs := core.CallsTo(get, "datastore.Datastore.validatePath")
+		// the validation is the schema lookup of the path (today inside the helper validatePath, which is part of Get's body)
+		var vs []ssa.CallInstruction
+		for _, c := range core.Calls(get) {
+			if strings.HasSuffix(core.CalleeKey(c), "SchemaClientBound.GetSchemaSdcpbPath") {
+				vs = append(vs, c)
+			}
+		}
 		if len(vs) != 1 {
-			r.Viol("VALIDATE-FIRST", core.Site(get, "validatePath"), w.Pos(get.Pos()), fmt.Sprintf("expected one validatePath call, found %d", len(vs)))
+			r.Viol("VALIDATE-FIRST", core.Site(get, "schema lookup of the path"), w.Pos(get.Pos()), fmt.Sprintf("expected one schema lookup of the requested path, found %d", len(vs)))
 		} else {
 			v := vs[0]
 			verdict, detail := errorDiscipline(w, get, v)
@@ -417,10 +423,8 @@ func c14(w *core.World, r *core.Report) {
 				again, _ := core.PathQuery{Avoid: func(in ssa.Instruction) bool { return tests[in] }}.Reaches(v.Block(), core.InstrIndex(v)+1, func(in ssa.Instruction) bool { return in == ssa.Instruction(v) })
 				r.Check(!again, "VALIDATE-FIRST", core.Site(get, "error tested per path"), w.InstrPos(v), "the result of validating one path can be overwritten by the next before it is tested: only the last path counts")
 			}
-			for _, h := range hs {
-				for _, c := range core.CallsTo(get, core.FuncKey(h)) {
-					r.Check(!core.CanFollow(c, v), "VALIDATE-FIRST", core.Site(get, "validation before %s", h.Name()), w.InstrPos(c), "no read before all paths are validated")
-				}
+			for _, hc := range dispatchedCalls(w, get, hs) {
+				r.Check(!core.CanFollow(hc.Call, v), "VALIDATE-FIRST", core.Site(get, "validation before %s", hc.Target.Name()), w.InstrPos(hc.Call), "no read before all paths are validated")
 			}
 		}
 	}
@@ -429,16 +433,29 @@ func c14(w *core.World, r *core.Report) {
 	r.Rule("ALL-PATHS", 4, "every requested path is read: the path list handed to each of the four handler calls in Datastore.Get is built by make + append in the loop over req.GetPath() and by nothing else (no function filters, de-duplicates or re-orders it); prefix tests on joined paths follow NO-PREFIX-ON-JOIN.")
 	{
 		n := 0
-		for _, c := range core.Calls(get) {
-			k := core.CalleeKey(c)
-			if !strings.HasPrefix(k, "datastore.Datastore.handleGetDataUpdates") {
-				continue
-			}
-			a := core.CallArgs(c)
+		for _, hc := range dispatchedCalls(w, get, hs) {
+			c, k, a := hc.Call, core.FuncKey(hc.Target), hc.Args
 			if len(a) < 4 {
 				continue
 			}
 			n++
+			if hc.Wrapper != nil {
+				// the forwarding wrapper hands its own path list on
+				fwdOK := false
+				for _, wc := range core.OwnCalls(hc.Wrapper) {
+					if wc.Common().StaticCallee() != hc.Target {
+						continue
+					}
+					wa := core.CallArgs(wc)
+					if len(wa) >= 4 {
+						os := core.Origins(wa[3])
+						if p, isP := os[0].(*ssa.Parameter); len(os) == 1 && isP && p.Parent() == hc.Wrapper && types.Identical(p.Type(), a[3].Type()) {
+							fwdOK = true
+						}
+					}
+				}
+				r.Check(fwdOK, "ALL-PATHS", core.Site(hc.Wrapper, "forwards the paths it is given"), w.Pos(hc.Wrapper.Pos()), "the wrapper between the dispatch table and the handler must pass the requested paths on unchanged")
+			}
 			bad := ""
 			seen := map[ssa.Value]bool{}
 			var visit func(v ssa.Value)
@@ -577,10 +594,19 @@ func c14(w *core.World, r *core.Report) {
 		want := map[string]int64{"handleGetDataUpdatesSTRING": 0, "handleGetDataUpdatesPROTO": 4}
 		_ = want
 		n := 0
-		for _, h := range hs {
-			for _, c := range core.CallsTo(get, core.FuncKey(h)) {
+		for _, hc := range dispatchedCalls(w, get, hs) {
+			{
+				c, h := hc.Call, hc.Target
 				n++
 				ok := false
+				if hc.KeyV != nil {
+					// dispatch table: the handler is filed under a constant and looked up by req.GetEncoding()
+					for _, oc := range core.OriginCalls(hc.KeyV) {
+						if core.CalleeIs(oc, "github.com/sdcio/sdc-protos/sdcpb.GetDataRequest.GetEncoding") {
+							ok = true
+						}
+					}
+				}
 				for _, g := range core.GuardsOf(c) {
 					a, b, eqOnTrue, isEq := core.EqTest(g.If.Cond)
 					if !isEq || eqOnTrue != g.CondTrue() {
@@ -741,7 +767,36 @@ func c15(w *core.World, r *core.Report) {
 		}
 		a := core.CallArgs(c)
 		var sites []*ssa.Call
+		// per call of the helper only when what is sent depends on what the helper is given; a phase function that builds
+		// its messages itself is simply part of runDeviationUpdate
+		dependsOnParam := false
 		if c.Parent() != run && core.IsInlined(c.Parent()) {
+			core.WithoutInlining(func() {
+				isParam := func(v ssa.Value) bool {
+					if v == nil {
+						return false
+					}
+					for _, o := range append(core.Origins(v), v) {
+						if p, ok := o.(*ssa.Parameter); ok && p.Parent() == c.Parent() {
+							return true
+						}
+					}
+					return false
+				}
+				if isParam(a[0]) {
+					dependsOnParam = true
+					return
+				}
+				for _, o := range append(core.Origins(a[0]), a[0]) {
+					if al, ok := o.(*ssa.Alloc); ok {
+						if isParam(literalField(al, "Event")) || isParam(literalField(al, "Reason")) {
+							dependsOnParam = true
+						}
+					}
+				}
+			})
+		}
+		if dependsOnParam {
 			for _, s := range core.InlineSites(c.Parent()) {
 				if core.InBody(run, s.Parent()) {
 					sites = append(sites, s)
@@ -1005,7 +1060,7 @@ func c15(w *core.World, r *core.Report) {
 
 	// ruling = lowest priority: the sort comparator orders by Priority ascending
 	r.Rule("RULING-FIRST", 1, "the intents of a path are sorted by ascending priority (ties by timestamp) before element [0] is treated as the ruling one.")
-	for _, a := range run.AnonFuncs {
+	for _, a := range sortComparators(run) {
 		if len(core.CallsTo(a, "cache.Update.Priority")) < 2 {
 			continue
 		}
@@ -1032,8 +1087,10 @@ func indexParam(c *ssa.Call, a *ssa.Function) int {
 	for _, o := range append(core.Origins(rv), rv) {
 		if u, ok := o.(*ssa.UnOp); ok {
 			if ia, ok := u.X.(*ssa.IndexAddr); ok {
-				for k, p := range a.Params {
-					if ia.Index == ssa.Value(p) {
+				// i and j are the last two parameters (a method used as comparator has its receiver first)
+				np := len(a.Params)
+				for k := 0; k < 2 && np >= 2; k++ {
+					if ia.Index == ssa.Value(a.Params[np-2+k]) {
 						return k
 					}
 				}
@@ -1041,4 +1098,44 @@ func indexParam(c *ssa.Call, a *ssa.Function) int {
 		}
 	}
 	return -1
+}
+
+// sortComparators lists the functions handed as 'less' to sort.Slice / sort.SliceStable in the (inlined) body of fn:
+// closures, named functions and method values alike.
+func sortComparators(fn *ssa.Function) []*ssa.Function {
+	var out []*ssa.Function
+	seen := map[*ssa.Function]bool{}
+	core.WithHost(fn, func() {
+		for _, c := range core.CallsTo(fn, "sort.Slice", "sort.SliceStable") {
+			args := core.CallArgs(c)
+			if len(args) < 2 {
+				continue
+			}
+			for _, o := range append(core.Origins(args[1]), args[1]) {
+				var g *ssa.Function
+				switch x := o.(type) {
+				case *ssa.Function:
+					g = x
+				case *ssa.MakeClosure:
+					g, _ = x.Fn.(*ssa.Function)
+				}
+				if g == nil {
+					continue
+				}
+				if g.Synthetic != "" && len(g.Blocks) > 0 {
+					// bound method wrapper: the comparator is the method it forwards to
+					for _, cc := range core.OwnCalls(g) {
+						if t := cc.Common().StaticCallee(); t != nil {
+							g = t
+						}
+					}
+				}
+				if !seen[g] {
+					seen[g] = true
+					out = append(out, g)
+				}
+			}
+		}
+	})
+	return out
 }
